@@ -1,7 +1,7 @@
 (** Properties_C19.v — C19: ValidateCalendarObject enforces the RFC 4791 section 4.1
     object rules.  Statements only; each is closed by [exact] of a lemma proved in
     CalValidateProofs.v. *)
-From GW Require Import Base CalValidate CalValidateProofs.
+From GW Require Import Base CalValidate CalValidateProofs CalValidateMore.
 
 (** Accepts exactly the calendars the RFC accepts, returning that type and UID. *)
 Theorem C19_accept_iff : forall c ty uid,
@@ -33,3 +33,41 @@ Theorem C19_agree_implies_spec_ok : forall c o,
   (o_result o = None -> o_empty_on_err o = true) -> spec_ok c o = true.
 Proof. exact agree_implies_spec_ok. Qed.
 Print Assumptions C19_agree_implies_spec_ok.
+
+(** * Consequences that no finite enumeration shows *)
+
+(** The verdict — accepted or not, the type and the UID returned — does not depend on
+    the order of the components. *)
+Theorem C19_order_independent : forall c c',
+  names_nonempty c -> has_method c = has_method c' -> Permutation.Permutation (comps c) (comps c') ->
+  validate c = validate c'.
+Proof. exact validate_perm. Qed.
+Print Assumptions C19_order_independent.
+
+(** A VTIMEZONE component without UID, wherever it stands, changes nothing. *)
+Theorem C19_timezone_ignored : forall m a b,
+  (forall x, In x (a ++ b)%list -> fst x <> ""%string) ->
+  validate {| has_method := m; comps := (a ++ ("VTIMEZONE"%string, NoUid) :: b)%list |} =
+  validate {| has_method := m; comps := (a ++ b)%list |}.
+Proof. exact validate_timezone_ignored. Qed.
+Print Assumptions C19_timezone_ignored.
+
+(** A rejection is final: no further component makes a rejected object acceptable. *)
+Theorem C19_reject_extends : forall m a b,
+  (forall x, In x (a ++ b)%list -> fst x <> ""%string) ->
+  validate {| has_method := m; comps := a |} = None ->
+  validate {| has_method := m; comps := (a ++ b)%list |} = None.
+Proof. exact validate_reject_extends. Qed.
+Print Assumptions C19_reject_extends.
+
+(** An object with a single component and no METHOD is accepted with that component's
+    type (none for a VTIMEZONE) and UID, unless the UID cannot be decoded. *)
+Theorem C19_single_component : forall name u,
+  name <> ""%string ->
+  validate {| has_method := false; comps := [(name, u)] |} =
+  match uid_text u with
+  | None => None
+  | Some t => Some (if String.eqb name "VTIMEZONE" then ""%string else name, t)
+  end.
+Proof. exact validate_single. Qed.
+Print Assumptions C19_single_component.
